@@ -79,11 +79,11 @@ def get_at(j, path):
     return j
 
 
-INJECT_KEYS = ['custom_properties', 'extensions', 'granular_markings', 'object_marking_refs', 'definition', 'definition_type', 'objects',
+INJECT_KEYS = ['a_matrix', 'x_matrix', 'custom_properties', 'extensions', 'granular_markings', 'object_marking_refs', 'definition', 'definition_type', 'objects',
                'spec_version', 'extension_type', 'x_new', 'hashes', 'modified', 'revoked', 'external_references', 'id', 'type',
                'created_by_ref', 'labels', 'lang', 'selectors', 'marking_ref', 'tlp', 'statement', 'object_refs', 'pattern_type',
                'ntfs-ext', 'archive-ext', 'windows-pebinary-ext', 'socket-ext', 'extension-definition--00000000-0000-4000-8000-000000000000']
-INJECT_VALUES = [None, 0, '', 'junk', [], {}, False, True, {'extension_type': 'toplevel-property-extension'},
+INJECT_VALUES = [[[1, [2]]], {'a': [[1], [2, [3]]]}, None, 0, '', 'junk', [], {}, False, True, {'extension_type': 'toplevel-property-extension'},
                  {'extension_type': 'property-extension'}, {'extension_type': 'new-sdo'}, 'tlp', 'statement', {'tlp': 'white'},
                  {'statement': 's'}, [{}], '2.1', '2.0', 2.1, ['type'], {'ntfs-ext': {'extension_type': 'toplevel-property-extension'}}]
 
@@ -148,6 +148,8 @@ def base_object(op):
         if d['type'] in ('observed-data', 'language-content', 'x-unreg-thing'):
             d['id'] = C.mkid(d['type'], n)
             d['created'] = d['modified'] = '2017-01-01T00:00:00.000Z'
+            if op.get('gm'):
+                d['granular_markings'] = [{'marking_ref': C.TLP['amber'], 'selectors': ['type', 'modified']}]
         return d
     if src == 'sco':
         minimal, rich = C.SCO21[op['name']][:2]
@@ -176,6 +178,10 @@ def base_object(op):
     d = C.build(ver, typ, n, 1500000000000000, 1500000001000000, tuple(rich), tuple(common))
     if op.get('gm'):
         d['granular_markings'] = [{'marking_ref': C.TLP['amber'], 'selectors': ['type', 'created']}]
+        if ver == '2.1' and n % 3 == 0:
+            # content the library keeps as-is: an unregistered property extension
+            d['extensions'] = {'extension-definition--' + C.mkuuid(5, 'c17ext'): {'extension_type': 'property-extension', 'rank': 5,
+                                                                                 'tags': ['a', 'b'], 'grid': {'rows': [1, 2]}}}
     return d
 
 
@@ -410,7 +416,7 @@ class C17(Profile):
                 try:
                     out.add(SW.obj_key(o))
                 except Exception:
-                    out.add((repr(o.get('id')), repr(o.get('modified'))))
+                    pass        # junk version stamp: (id, modified) of such content is not a version the comparison can follow
         return out
 
     def store_add(self, op, entry, base, bad, desc, i):
